@@ -2,6 +2,7 @@
 import itertools
 
 from .. import gen_struct as G
+from .. import layouts as L
 from .. import oracles as O
 from .. import stages as S
 from . import core
@@ -40,12 +41,27 @@ def gen(rng, tier):
             ids = list(s.nodes)
             s.node_dof_notes = {k: tuple(rng.sample(range(0, 60), 3)) for k in rng.sample(ids, max(1, len(ids) // 2))}
             s.meta["kind"] += "+dofnotes"
-        cases.append(core.case_from_struct(s, Weight=core.weights(i)))
+        c = core.case_from_struct(s, Weight=core.weights(i))
+        if i % 3 == 2:
+            c["Restage"] = 1 + i // 3
+        if i % 4 == 1:
+            # the same definition in another valid layout: in particular links and supports whose terms are listed
+            # in another order ({dy dx}, {rz dx dy}): the braces hold a set
+            c["Text"] = L.layout(rng, s)
+            c["kind"] += "+layout"
+        cases.append(c)
     return cases
 
 
 def oracle(c, o):
-    return O.c16_structure(o, o["Pre"][0])
+    fails = O.c16_structure(o, o["Pre"][0])
+    st = o.get("Restaged")
+    if st and not fails:
+        # a construction stage: the same sliced bars but one, numbered again as a structure of their own
+        if st.get("Panic"):
+            return ["numbering the structure again without bar %s panicked: %s" % (o.get("Dropped"), st["Panic"][:200])]
+        fails = ["numbered again without bar %s: %s" % (o.get("Dropped"), f) for f in O.c16_structure(o, st)]
+    return fails
 
 
 SPEC = {
@@ -56,7 +72,7 @@ SPEC = {
     "stages": [("C", lambda c, o, rng: S.stageC_case(o), S.stageC_v, 12, None)],
     "nontrivial": lambda c, o: len(o["Bars"]) >= 2,
     "rule": "distinct nodes at the same coordinates (crossing, unconnected members); two/three-bar joints over the 8 x 8 link combinations (24 sampled in quick, all 64 in thorough) and frames on a grid with random links (rigid, pinned, sliding, single-component, free) at bar ends; "
-            "non-trivial iff at least two bars; the iff 'same number <=> same unknown', the range 0..count-1 and the absence of gaps are checked on AssignDof's output, and the Coq model must issue exactly the same numbers (stage C)",
+            "non-trivial iff at least two bars; the iff 'same number <=> same unknown', the range 0..count-1 and the absence of gaps are checked on AssignDof's output (every third frame also numbered a second time, as a structure of its own, without one of its sliced bars), and the Coq model must issue exactly the same numbers (stage C)",
     "assumptions": ["sort.Sort(ByGeometryPos) only permutes the bars; the model is run on the order the implementation ended up with (C16_order_independent covers every other order)"],
 }
 
